@@ -130,8 +130,27 @@ struct SeqRes {
     order: Vec<(usize, usize)>,
     outs: Vec<Vec<String>>,
     dump: Dump,
-    /// multi-entry calls that failed in this order after they had already changed something
-    partial: Vec<(usize, usize)>,
+}
+
+/// the call was refused because the path named by its first argument does not exist
+fn failed_before_walking(op: &Op, out: &Outcome) -> bool {
+    if !out.err.contains("DoesNotExist") {
+        return false;
+    }
+    let first: std::cell::RefCell<Option<String>> = std::cell::RefCell::new(None);
+    let _ = op.map_paths(|p, i| {
+        if i == 0 && first.borrow().is_none() {
+            *first.borrow_mut() = Some(p.to_string());
+        }
+        p.to_string()
+    });
+    let Some(arg) = first.into_inner() else { return false };
+    let reported = out.msg.rsplit(": ").next().unwrap_or("").trim_end_matches(')').to_string();
+    if arg.starts_with('/') {
+        reported == arg
+    } else {
+        reported.ends_with(&format!("/{}", arg))
+    }
 }
 
 fn seq_outcomes(setup: &[Op], sig: &[Op], prog: &Prog) -> Vec<SeqRes> {
@@ -142,19 +161,10 @@ fn seq_outcomes(setup: &[Op], sig: &[Op], prog: &Prog) -> Vec<SeqRes> {
         if (0..prog.len()).all(|t| pos[t] == lens[t]) {
             let fs = init.verif_deep_clone();
             let mut outs: Vec<Vec<String>> = prog.iter().map(|p| vec![String::new(); p.len()]).collect();
-            let mut partial = vec![];
             for &(t, i) in order.iter() {
-                let op = &sig[prog[t][i]];
-                let before = if crate::engines::space::order_sensitive(op) { Some(fs.verif_dump()) } else { None };
-                let o = apply(&fs, op);
-                if let Some(b) = before {
-                    if !o.ok && fs.verif_dump() != b {
-                        partial.push((t, i));
-                    }
-                }
-                outs[t][i] = o.transcript();
+                outs[t][i] = apply(&fs, &sig[prog[t][i]]).transcript();
             }
-            res.push(SeqRes { order: order.clone(), outs, dump: fs.verif_dump(), partial });
+            res.push(SeqRes { order: order.clone(), outs, dump: fs.verif_dump() });
             return;
         }
         for t in 0..prog.len() {
@@ -261,10 +271,14 @@ fn check_execution(init_idx: usize, sig: &[Op], prog: &Prog, e: &Execution, seq:
     // (b) linearizability against the code itself. A multi-entry call (copy, remove_all) that fails half way
     // leaves a partial result that depends on the hash order of the entry map, which differs between the
     // instances the sequential outcomes were computed on: such executions are held to (a) and (d) only
-    // (only calls that can fail *with* a partial result: in some sequential order the same call fails after it
-    // has changed the state; a call that fails without touching anything has nothing order-dependent to leave)
+    // (a call that fails because its own first argument does not exist has not started to walk anything: it has
+    // no partial result to leave and stays subject to linearizability. The criterion is structural on purpose:
+    // whether a failing walk had got anywhere in the *sequential* runs depends on the same hash order)
     let partial = e.recs.iter().enumerate().any(|(t, r)| {
-        r.iter().enumerate().any(|(i, x)| !x.out.ok && crate::engines::space::order_sensitive(&sig[prog[t][i]]) && seq.iter().any(|q| q.partial.contains(&(t, i))))
+        r.iter().enumerate().any(|(i, x)| {
+            let op = &sig[prog[t][i]];
+            !x.out.ok && crate::engines::space::order_sensitive(op) && !failed_before_walking(op, &x.out)
+        })
     });
     if partial {
         PARTIAL_SKIPPED.fetch_add(1, Ordering::Relaxed);
